@@ -264,6 +264,10 @@ def check_once(case):
         require(cplx.I.tolist() == [0.0, 1.0], "constant-I-changed", f"library code changed the shared constant cplx.I to {cplx.I.tolist()}")
         cmp(cplx.scalar_mult(ta, cplx.I), a * 1j, mx(a) + 1e-300, "scalar_mult(x, cplx.I)")
         cmp(cplx.scalar_divide(ta, cplx.I.to(ta)), a / 1j, mx(a) + 1e-300, "scalar_divide(x, cplx.I)", rtol=1e-10)
+        buf = torch.full_like(ta, 7.0)
+        ret = cplx.scalar_mult(ta, cplx.I, out=buf)          # the constant together with a caller-supplied result buffer
+        cmp(buf, a * 1j, mx(a) + 1e-300, "scalar_mult(x, cplx.I, out=buffer): contents of the buffer")
+        cmp(ret, a * 1j, mx(a) + 1e-300, "scalar_mult(x, cplx.I, out=buffer): return value")
     elif op in ("matmul", "matmul_kron_form"):
         K = a.shape[-1]
         cmp(cplx.matmul(ta, tb), a @ b, K * 4 * (mx(a) + 1e-300) * (mx(b) + 1e-300), "matmul")
